@@ -984,7 +984,7 @@ struct Value {
         }
 
         if (type == ValueType::ValuePtr) {
-            return value_->isUndefined();
+            return value_->IsUndefined();
         }
 
         return false;
@@ -998,7 +998,7 @@ struct Value {
         }
 
         if (type == ValueType::ValuePtr) {
-            return value_->isObject();
+            return value_->IsObject();
         }
 
         return false;
@@ -1012,7 +1012,7 @@ struct Value {
         }
 
         if (type == ValueType::ValuePtr) {
-            return value_->isArray();
+            return value_->IsArray();
         }
 
         return false;
@@ -1026,7 +1026,7 @@ struct Value {
         }
 
         if (type == ValueType::ValuePtr) {
-            return value_->isString();
+            return value_->IsString();
         }
 
         return false;
@@ -1040,7 +1040,7 @@ struct Value {
         }
 
         if (type == ValueType::ValuePtr) {
-            return value_->isUInt64();
+            return value_->IsUInt64();
         }
 
         return false;
@@ -1054,7 +1054,7 @@ struct Value {
         }
 
         if (type == ValueType::ValuePtr) {
-            return value_->isInt64();
+            return value_->IsInt64();
         }
 
         return false;
@@ -1068,7 +1068,7 @@ struct Value {
         }
 
         if (type == ValueType::ValuePtr) {
-            return value_->isDouble();
+            return value_->IsDouble();
         }
 
         return false;
@@ -1082,7 +1082,7 @@ struct Value {
         }
 
         if (type == ValueType::ValuePtr) {
-            return value_->isTrue();
+            return value_->IsTrue();
         }
 
         return false;
@@ -1096,7 +1096,7 @@ struct Value {
         }
 
         if (type == ValueType::ValuePtr) {
-            return value_->isFalse();
+            return value_->IsFalse();
         }
 
         return false;
@@ -1110,7 +1110,7 @@ struct Value {
         }
 
         if (type == ValueType::ValuePtr) {
-            return value_->isNull();
+            return value_->IsNull();
         }
 
         return false;
